@@ -169,47 +169,6 @@ Lemma cell_setcell W b a x b' a' :
 Proof.
   unfold cell, setcell; cbn. rewrite nth_upd. destruct ((b' =? b) && (b <? length (w_bufs W))) eqn:E; cbn.
   - rewrite nth_upd. apply andb_true_iff in E. destruct E as [E _]. apply Nat.eqb_eq in E. subst. bd; auto.
-  - reflexivity.
-Qed.
+Show.
 
-(** write_through_view_changes_exactly, cell form: after h(i,j) = e, ANY handle w (same block or another, any chain of
-    views) reads the new value where its element occupies the written cell, and its old value everywhere else *)
-Lemma write_exact c W v i j e w i' j' :
-  inb W v -> inr v i j ->
-  vget c (vset c W v i j e) w i' j' =
-  if (v_buf w =? v_buf v) && (vaddr w i' j' =? vaddr v i j) then adapt c w (adapt c v e) else vget c W w i' j'.
-Proof.
-  intros [B A] R. unfold vget, vset. rewrite cell_setcell. specialize (A _ _ R).
-  destruct (v_buf w =? v_buf v) eqn:E1, (vaddr w i' j' =? vaddr v i j) eqn:E2; cbn; bd; auto; lia.
-Qed.
-(** ... and within the written view itself exactly element (i,j) changes *)
-Lemma write_exact_self c W v i j e i' j' :
-  inb W v -> injv v -> inr v i j -> inr v i' j' ->
-  vget c (vset c W v i j e) v i' j' = if (i' =? i) && (j' =? j) then e else vget c W v i' j'.
-Proof.
-  intros B I R R'. rewrite write_exact by auto. rewrite Nat.eqb_refl. cbn.
-  destruct (vaddr v i' j' =? vaddr v i j) eqn:E.
-  - apply Nat.eqb_eq in E. destruct (I _ _ _ _ R' R E); subst. rewrite !Nat.eqb_refl. cbn. apply adapt_invol.
-  - destruct ((i' =? i) && (j' =? j)) eqn:E3; auto. apply andb_true_iff in E3. destruct E3 as [X Y].
-    apply Nat.eqb_eq in X, Y. subst. rewrite Nat.eqb_refl in E. discriminate.
-Qed.
-(** root form: writing element (i,j) through a view obtained by ANY chain of view operations changes exactly the element
-    of the root matrix that the chain denotes, to the value the two element types agree on, and nothing else *)
-Lemma write_through_view_changes_exactly c W os r v i j e a b :
-  wfv r -> injv r -> inb W r -> run_ops os r = Some v -> inr v i j -> inr r a b ->
-  vget c (vset c W v i j e) r a b =
-  if (a =? fst (chain_index os r i j)) && (b =? snd (chain_index os r i j))
-  then flagfix c (count_op is_neg os) (count_op is_tr os) e else vget c W r a b.
-Proof.
-  intros Wf I [B A] H R Rr. destruct (view_chain_addr os r v i j Wf H R) as (R0 & A0 & B0 & N0 & C0).
-  assert (Bv : inb W v). { split. rewrite B0; auto. intros x y Rxy. destruct (view_chain_addr os r v x y Wf H Rxy) as (Rx & Ax & Bx & _). rewrite Ax, Bx. auto. }
-  rewrite write_exact by auto. rewrite B0, Nat.eqb_refl. cbn. rewrite A0.
-  set (p := chain_index os r i j) in *.
-  destruct (vaddr r a b =? vaddr r (fst p) (snd p)) eqn:E.
-  - apply Nat.eqb_eq in E. destruct (I _ _ _ _ Rr R0 E) as [-> ->]. rewrite !Nat.eqb_refl. cbn.
-    rewrite (adapt_xor c r v _ _ _ N0 C0). rewrite <- (adapt_xor c r v _ _ (adapt c r (flagfix c (count_op is_neg os) (count_op is_tr os) e)) N0 C0).
-    rewrite (adapt_xor c r v _ _ _ N0 C0), adapt_invol.
-    unfold flagfix. destruct (count_op is_neg os), (count_op is_tr os); rewrite ?eneg_invol, ?econj_invol, ?econj_eneg, ?eneg_invol, ?econj_invol; auto.
-  - destruct ((a =? fst p) && (b =? snd p)) eqn:E3; auto. apply andb_true_iff in E3. destruct E3 as [X Y].
-    apply Nat.eqb_eq in X, Y. subst. rewrite Nat.eqb_refl in E. discriminate.
-Qed.
+Abort.
